@@ -203,6 +203,31 @@ func cmdC05(r *RNG, n int, e *Emitter, args []string) {
 			S = float64(W) / 4 // deltas are chosen relative to the thin dimension
 			e.Count("shape=huge-thin")
 		}
+		manySided := false
+		if i%47 == 11 {
+			// a many-sided near-circular polygon: every vertex turns by less than a degree (the offsetter's almost-straight
+			// shortcuts), shrunk beyond its inradius in half of the cases (over-shrinking must yield nothing)
+			nv := int(r.Range(300, 620))
+			R := float64(r.Range(40000, 200000))
+			cx, cy := r.Range(-100000, 100000), r.Range(-100000, 100000)
+			ms := make(clip.Path64, nv)
+			for j := 0; j < nv; j++ {
+				a := 2 * math.Pi * float64(j) / float64(nv)
+				ms[j] = clip.Point64{X: cx + int64(math.Round(R*math.Cos(a))), Y: cy + int64(math.Round(R*math.Sin(a)))}
+			}
+			sign = 1
+			if clip.Area64(ms) < 0 {
+				ms = clip.ReversePath(ms)
+			}
+			if r.Intn(3) == 0 {
+				ms = clip.ReversePath(ms)
+				sign = -1
+			}
+			in, split = clip.Paths64{ms}, 0
+			S = R
+			manySided = true
+			e.Count("shape=many-sided")
+		}
 		// ways of writing a ring down: explicit closing vertex, a repeated vertex
 		for k := range in {
 			if r.Intn(4) == 0 {
@@ -229,6 +254,12 @@ func cmdC05(r *RNG, n int, e *Emitter, args []string) {
 			delta = S * (0.03 + 0.3*r.Float())
 			if r.Bool() {
 				delta = -delta
+			}
+		}
+		if manySided {
+			delta = -S * []float64{1.5, 1.2, 1.05, 0.5, 0.1}[r.Intn(5)]
+			if r.Intn(5) == 0 {
+				delta = S * 0.05
 			}
 		}
 		in0 := clonePaths(in)
@@ -339,10 +370,34 @@ func cmdC05(r *RNG, n int, e *Emitter, args []string) {
 			meta["r_far2"] = rFar
 			e.Case(id+"f", l3, meta)
 			// over-shrinking: if every interior point is within |delta| - tol of the boundary, the result is empty
-			if ad-tol > 1 {
+			// (the premise is the Euclidean one only where the property gives it: Round joins remove the whole disc about a
+			// vertex; the other joins are only bound along the edge normals, which coincides with the Euclidean distance to the
+			// boundary from inside a single convex ring — a grown HOLE with bevelled corners legitimately leaves points that
+			// are within |delta| of one of its vertices)
+			if ad-tol > 1 && (jt == clip.Round || (len(in0) == 1 && isConvexRing(in0[0]))) {
 				l4, _ := genLine("canon 0", ratSq(ad-tol), []clip.Paths64{in0}, in0, nil)
 				e.Case(id+"e", l4, meta)
 			}
 		}
 	}
+}
+
+// isConvexRing: all turns of the closed ring have the same sign (zero turns allowed)
+func isConvexRing(p clip.Path64) bool {
+	n := len(p)
+	if n < 3 {
+		return false
+	}
+	pos, neg := false, false
+	for i := 0; i < n; i++ {
+		a, b, c := p[i], p[(i+1)%n], p[(i+2)%n]
+		cr := new(big.Int).Sub(new(big.Int).Mul(big.NewInt(b.X-a.X), big.NewInt(c.Y-b.Y)), new(big.Int).Mul(big.NewInt(b.Y-a.Y), big.NewInt(c.X-b.X)))
+		switch cr.Sign() {
+		case 1:
+			pos = true
+		case -1:
+			neg = true
+		}
+	}
+	return !(pos && neg)
 }
